@@ -49,4 +49,4 @@ Definition verdict_code (v : verdict) : list Z :=
 
 (* cycles: [verdict; len(path); wf] ++ structure *)
 Definition k_cyc (g : netlist) : list Z :=
-  verdict_code (check_cycles g) ++ [b2l (wf_netlist g)] ++ struct_cells (cells g) 0.
+  verdict_code (check_cycles g) ++ [b2l (wf_netlist g && top_first g)] ++ struct_cells (cells g) 0.
